@@ -11663,43 +11663,40 @@ let quantifier_body s =
                           (match p4 with
                            | XH ->
                              let (d2, r3) = take_digits r2 in
-                             (match d2 with
+                             (match r3 with
                               | [] -> None
-                              | _ :: _ ->
-                                (match r3 with
-                                 | [] -> None
-                                 | n1 :: rest ->
-                                   (match n1 with
-                                    | N0 -> None
-                                    | Npos p5 ->
-                                      (match p5 with
-                                       | XI p6 ->
-                                         (match p6 with
-                                          | XO p7 ->
-                                            (match p7 with
-                                             | XI p8 ->
-                                               (match p8 with
-                                                | XI p9 ->
-                                                  (match p9 with
-                                                   | XI p10 ->
-                                                     (match p10 with
-                                                      | XI p11 ->
-                                                        (match p11 with
-                                                         | XH ->
-                                                           Some
-                                                             ((app d1
-                                                                (app ((Npos
-                                                                  (XO (XO (XI
-                                                                  (XI (XO
-                                                                  XH)))))) :: [])
-                                                                  d2)), rest)
-                                                         | _ -> None)
+                              | n1 :: rest ->
+                                (match n1 with
+                                 | N0 -> None
+                                 | Npos p5 ->
+                                   (match p5 with
+                                    | XI p6 ->
+                                      (match p6 with
+                                       | XO p7 ->
+                                         (match p7 with
+                                          | XI p8 ->
+                                            (match p8 with
+                                             | XI p9 ->
+                                               (match p9 with
+                                                | XI p10 ->
+                                                  (match p10 with
+                                                   | XI p11 ->
+                                                     (match p11 with
+                                                      | XH ->
+                                                        Some
+                                                          ((app d1
+                                                             (app ((Npos (XO
+                                                               (XO (XI (XI
+                                                               (XO
+                                                               XH)))))) :: [])
+                                                               d2)), rest)
                                                       | _ -> None)
                                                    | _ -> None)
                                                 | _ -> None)
                                              | _ -> None)
                                           | _ -> None)
-                                       | _ -> None))))
+                                       | _ -> None)
+                                    | _ -> None)))
                            | _ -> None)
                         | _ -> None)
                      | _ -> None)
